@@ -46,6 +46,7 @@ func runC12(p *Prog, r *Report) {
 	c12QuoteStripping(p, r, "R12.9-quote-unwrapping")
 	c12SignedParse(p, r, "R12.10-no-plus-sign")
 	c12DigitExtractors(p, r, "R12.11-code-point-digits")
+	ownedBytesRule(p, r, "R12.13-owned-bytes", 4, pTypes)
 }
 
 // R12.7: netip.ParseAddr accepts a zoned IPv6 address ("fe80::1%eth0"); netip.PrefixFrom silently drops the zone. A
@@ -902,13 +903,13 @@ func c12SignedParse(p *Prog, r *Report, rule string) {
 		if fnPkgPath(fn) != pTypes || fn.Parent() != nil {
 			continue
 		}
-		var strParam *ssa.Parameter
+		strParams := map[ssa.Value]bool{}
 		for _, pr := range fn.Params {
 			if basicKind(pr.Type()) == types.String {
-				strParam = pr
+				strParams[pr] = true
 			}
 		}
-		if strParam == nil {
+		if len(strParams) == 0 {
 			continue
 		}
 		var fromInput func(v ssa.Value) bool
@@ -918,7 +919,7 @@ func c12SignedParse(p *Prog, r *Report, rule string) {
 				return false
 			}
 			seenIn[v] = true
-			if v == ssa.Value(strParam) {
+			if strParams[v] {
 				return true
 			}
 			switch x := v.(type) {
